@@ -1,6 +1,7 @@
 // C07 — the MsgPack reader accepts every valid encoding and matches a reference decoder.
 // Documents are produced by the independent encoder (ref_msgpack) with adversarial format choices; outcomes are compared
 // with the independent decoder.  Build with -DMODEL_GROUP=<0..2> (compile-time split only).
+#include <functional>
 #include "common/model_types.h"
 #include "common/to_ref.h"
 #include "common/dyn.h"
@@ -153,8 +154,11 @@ VF_PROPERTY(truncated_documents, 3, "every strict prefix of a valid document (ty
 	if (bytes.size() < 2) c.discard("tiny");
 	const size_t cut = c.src.draw(bytes.size()); const std::string pre = bytes.substr(0, cut); const Cfg cfg = gen_read_cfg(c.src);
 	c.nontrivial = cut > 1; c.describe(vf::cat("cut ", cut, "/", bytes.size(), " ", vf::hex(pre.substr(0, 120)), " ", cfg.str()));
-	Val target = dyn::shape(tree); Outcome lo = dyn::load<MsgPackArchive>(target, pre, cfg);
-	const std::string d = vf::cat("prefix ", cut, "/", bytes.size(), " ", vf::hex(pre.substr(0, 200)), " of ", refmp::show(tree).substr(0, 200), " [", cfg.str(), "] => ", lo.str());
+	Val target = dyn::shape(tree);
+	// a target that does not know every member: the unknown ones are skipped (by key lookup or when the scope is closed); truncation inside them must still be noticed
+	if (c.src.chance(1, 3)) { std::function<void(Val&)> prune = [&](Val& n) { if (n.t == RT::Map) { for (size_t i = n.map.size(); i > 0; i--) if (c.src.chance(1, 2)) n.map.erase(n.map.begin() + static_cast<long>(i - 1)); for (auto& kv : n.map) prune(kv.second); } else if (n.t == RT::Arr) for (auto& e : n.arr) prune(e); }; prune(target); c.label("partial-target"); }
+	Outcome lo = dyn::load<MsgPackArchive>(target, pre, cfg);
+	const std::string d = vf::cat("prefix ", cut, "/", bytes.size(), " ", vf::hex(pre.substr(0, 200)), " of ", refmp::show(tree).substr(0, 200), " target-shape ", refmp::show(target).substr(0, 200), " [", cfg.str(), "] => ", lo.str());
 	if (lo.ok()) c.fail("a truncated document was accepted", d);
 	if (lo.k != Outcome::SerEx) c.fail("a truncated document was rejected with something else than a SerializationException", d);
 	if (lo.code != SerializationErrorCode::ParsingError && lo.code != SerializationErrorCode::OutOfRange) c.fail("a truncated document was rejected with an unexpected error code", d);
